@@ -155,6 +155,10 @@ def _version_chunk(args):
         foreign = ["zz_1", "%s_%d" % (dt.lower(), len(comps) + 5), "%s_%d" % (fname.lower(), len(comps) + 5), "no_such_long_name"]
         other_dt = rnd.choice([d for d in T.complex_datatypes(v) if d != dt])
         foreign.append(other_dt.lower() + "_1")
+        # positional paths that belong to OTHER fields: an index that merely starts with this field's index, the next
+        # field, the same index in another segment
+        foreign += ["%s0_1" % fname.lower(), "%s9_1" % fname.lower(), "%s1_1_1" % fname.lower(),
+                    "%s_%d_1" % (seg.lower(), i + 1), "zz9_%d_1" % i]
         try:
             probes = probe_parent(lambda: Field(fname, version=v), rows, attrs, foreign, rnd, positional)
             events.append({"kind": "field", "v": v, "parent": "%s(%s)" % (fname, dt), "rows": [[a, b or ""] for a, b in rows],
